@@ -1,12 +1,15 @@
 (* JsExpr/StmtModel.v — executable model of the statement forms of parseStmt that are thin wrappers around
    parseExpression: block, var (identifier bindings), if / else, while (also rewritten to for with Options.WhileToFor),
-   do-while, throw, break / continue, labelled statements; expression and empty statements are those of Pratt.v
+   do-while, for ( ; ; ) with an expression or var initialiser, throw, break / continue, labelled statements; expression and empty statements are those of Pratt.v
    ([parse_stmt]).  Every form ends with the tail of parseStmt ([skip_semi]): a ';' is taken on the same line, and after
    a line break when the statement is one that a ';' terminates (var, expression, do-while, break / continue, throw).
-   Not modelled ([OutFrag]): for, switch, try, with, return (only inside functions), function / class declarations, let /
+   Not modelled ([OutFrag]): for-in / for-of / for await, switch, try, with, return (only inside functions), function / class declarations, let /
    const declarations, import / export, binding patterns, yield / await as names; scopes (C04); the statement nesting
    limit (C01).  Definitions only. *)
 From Verif Require Import Common.Base Gen.PrattTable JsExpr.Syntax JsExpr.Pratt.
+
+(* the initialiser of a for statement *)
+Inductive xfinit := FNone | FExpr (e : expr) | FVar (l : list (list Z * option expr)).
 
 Inductive xstmt :=
 | XExpr (e : expr)
@@ -15,14 +18,14 @@ Inductive xstmt :=
 | XBlock (l : list xstmt)
 | XIf (c : expr) (s : xstmt) (e : option xstmt)
 | XWhile (c : expr) (s : xstmt)
-| XFor0 (c : expr) (l : list xstmt)          (* `while` under Options.WhileToFor: for ( ; c ; ) { l } *)
+| XFor (i : xfinit) (c p : option expr) (l : list xstmt)   (* for ( i ; c ; p ) { l } — also `while` under Options.WhileToFor *)
 | XDo (s : xstmt) (c : expr)
 | XThrow (e : expr)
 | XBranch (t : Z) (label : option (list Z))  (* t: BreakToken or ContinueToken *)
 | XVar (l : list (list Z * option expr)).
 
 (* var a [= e] , b [= e] ...   after the `var`; bindings other than identifiers are outside the fragment *)
-Fixpoint parse_xvar (n : nat) (ts : list token) (acc : list (list Z * option expr)) {struct n}
+Fixpoint parse_xvar (n : nat) (inf : bool) (ts : list token) (acc : list (list Z * option expr)) {struct n}
   : res (list (list Z * option expr) * list token) :=
   match n with
   | O => NoFuel
@@ -35,12 +38,12 @@ Fixpoint parse_xvar (n : nat) (ts : list token) (acc : list (list Z * option exp
       else
         let k (b : list Z * option expr) (r' : list token) :=
           match r' with
-          | d :: r'' => if ty d =? tt_CommaToken then parse_xvar m r'' (b :: acc) else Ok (rev (b :: acc), r')
+          | d :: r'' => if ty d =? tt_CommaToken then parse_xvar m inf r'' (b :: acc) else Ok (rev (b :: acc), r')
           | [] => Ok (rev (b :: acc), [])
           end in
         match r with
         | e :: r2 =>
-            if ty e =? tt_EqToken then '(x, r3) <~ parse true prec_OpAssign r2 ;; k (data c, Some x) r3
+            if ty e =? tt_EqToken then '(x, r3) <~ parse inf prec_OpAssign r2 ;; k (data c, Some x) r3
             else k (data c, None) r
         | [] => k (data c, None) r
         end
@@ -64,7 +67,7 @@ Fixpoint parse_xstmt (n : nat) (w2f : bool) (ts : list token) {struct n} : res (
       if ty k =? tt_OpenBraceToken then
         '(l, r) <~ parse_xlist m w2f rest [] ;; Ok (XBlock l, skip_semi false r)
       else if ty k =? tt_VarToken then
-        '(l, r) <~ parse_xvar (S (length rest)) rest [] ;;
+        '(l, r) <~ parse_xvar (S (length rest)) true rest [] ;;
         if stmt_end_ok r then Ok (XVar l, skip_semi true r) else Fail
       else if ty k =? tt_IfToken then
         r1 <~ expect tt_OpenParenToken rest ;;
@@ -82,8 +85,57 @@ Fixpoint parse_xstmt (n : nat) (w2f : bool) (ts : list token) {struct n} : res (
         '(c, r2) <~ parse true prec_OpExpr r1 ;;
         r3 <~ expect tt_CloseParenToken r2 ;;
         '(s, r4) <~ parse_xstmt m w2f r3 ;;
-        if w2f then Ok (XFor0 c (match s with XBlock l => l | _ => [s] end), skip_semi false r4)
+        if w2f then Ok (XFor FNone (Some c) None (match s with XBlock l => l | _ => [s] end), skip_semi false r4)
         else Ok (XWhile c s, skip_semi false r4)
+      else if ty k =? tt_ForToken then
+        r1 <~ expect tt_OpenParenToken rest ;;
+        (* the initialiser, with the In flag off *)
+        '(i, r2) <~ match r1 with
+                   | [] => Fail
+                   | a :: ra =>
+                       if ty a =? tt_SemicolonToken then Ok (FNone, r1)
+                       else if (ty a =? tt_LetToken) || (ty a =? tt_ConstToken) then OutFrag
+                       else if ty a =? tt_VarToken then
+                         '(l, r) <~ parse_xvar (S (length ra)) false ra [] ;;
+                         match r with
+                         | b :: _ =>
+                             if ty b =? tt_SemicolonToken then Ok (FVar l, r)
+                             else if ((ty b =? tt_InToken) || (ty b =? tt_OfToken)) &&
+                                     match l with [(_, None)] => true | _ => false end then OutFrag
+                             else Fail
+                         | [] => Fail
+                         end
+                       else
+                         '(e, r) <~ parse false prec_OpExpr r1 ;;
+                         match r with
+                         | b :: _ =>
+                             if ty b =? tt_SemicolonToken then Ok (FExpr e, r)
+                             else if (ty b =? tt_InToken) || (ty b =? tt_OfToken) then OutFrag
+                             else Fail
+                         | [] => Fail
+                         end
+                   end ;;
+        r3 <~ expect tt_SemicolonToken r2 ;;
+        '(c, r4) <~ match r3 with
+                   | a :: _ => if ty a =? tt_SemicolonToken then Ok (None, r3)
+                               else '(e, r) <~ parse true prec_OpExpr r3 ;; Ok (Some e, r)
+                   | [] => Fail
+                   end ;;
+        r5 <~ expect tt_SemicolonToken r4 ;;
+        '(p, r6) <~ match r5 with
+                   | a :: _ => if ty a =? tt_CloseParenToken then Ok (None, r5)
+                               else '(e, r) <~ parse true prec_OpExpr r5 ;; Ok (Some e, r)
+                   | [] => Fail
+                   end ;;
+        r7 <~ expect tt_CloseParenToken r6 ;;
+        '(l, r8) <~ match r7 with
+                   | a :: ra =>
+                       if ty a =? tt_OpenBraceToken then parse_xlist m w2f ra []
+                       else if ty a =? tt_SemicolonToken then Ok ([], ra)
+                       else '(s, r) <~ parse_xstmt m w2f r7 ;; Ok ([s], r)
+                   | [] => '(s, r) <~ parse_xstmt m w2f r7 ;; Ok ([s], r)
+                   end ;;
+        Ok (XFor i c p l, skip_semi false r8)
       else if ty k =? tt_DoToken then
         '(s, r1) <~ parse_xstmt m w2f rest ;;
         r2 <~ expect tt_WhileToken r1 ;;
@@ -155,7 +207,15 @@ Fixpoint show_xstmt (s : xstmt) : list Z :=
   | XIf c v None => s_stmt ++ [40; 105; 102; 32] ++ show c ++ [32] ++ show_xstmt v ++ [41]
   | XIf c v (Some w) => s_stmt ++ [40; 105; 102; 32] ++ show c ++ [32] ++ show_xstmt v ++ [32; 101; 108; 115; 101; 32] ++ show_xstmt w ++ [41]
   | XWhile c v => s_stmt ++ [40; 119; 104; 105; 108; 101; 32] ++ show c ++ [32] ++ show_xstmt v ++ [41]
-  | XFor0 c l => s_stmt ++ [40; 102; 111; 114; 32; 59; 32] ++ show c ++ [32; 59; 32] ++ block l ++ [41]
+  | XFor i c p l =>
+      s_stmt ++ [40; 102; 111; 114] ++
+      match i with
+      | FNone => []
+      | FExpr e => 32 :: show e
+      | FVar bs => 32 :: [68; 101; 99; 108; 40; 118; 97; 114] ++ join_sp (map show_binding bs) ++ [41]
+      end ++ [32; 59] ++
+      match c with Some e => 32 :: show e | None => [] end ++ [32; 59] ++
+      match p with Some e => 32 :: show e | None => [] end ++ [32] ++ block l ++ [41]
   | XDo v c => s_stmt ++ [40; 100; 111; 32] ++ show_xstmt v ++ [32; 119; 104; 105; 108; 101; 32] ++ show c ++ [41]
   | XThrow e => s_stmt ++ [40; 116; 104; 114; 111; 119; 32] ++ show e ++ [41]
   | XBranch t lab => s_stmt ++ [40] ++ tok_bytes t ++ match lab with Some n => 32 :: n | None => [] end ++ [41]
